@@ -277,3 +277,20 @@ class Stub:
     for k, v in kw.items():
       (ch if k in ch else st)[k] = v
     return Stub(static=st, **ch)
+
+
+def engine_selfcheck(oid, function, fn_builder, budget=600, k=2):
+  """Interpreter self-validation on the very jaxprs a property relies on: the same Engine J interpreter, instantiated with the float algebra, is run on k random
+  inputs and must agree with JAX's own execution of the real function.  A mismatch is an ENGINE ERROR (never a violation)."""
+  def run():
+    import jax
+    from verif.engine.jaxsym import self_validate
+    fn, example = fn_builder()
+
+    def flat(*a):
+      return jax.tree_util.tree_leaves(fn(*a))
+    ok, det = self_validate(flat, example, k=k, seed=seed(), rtol=1e-7, atol=1e-9)
+    if ok:
+      return Result(PROVED, 'Engine J (float algebra) = JAX on %s: %s' % (function, det), stats={'samples': k})
+    return Result(ERROR, 'interpreter self-validation failed on %s: %s' % (function, det))
+  return Obligation(oid, function, 'ENGINE SELF-VALIDATION (not a property clause): the jaxpr interpreter run with floats reproduces JAX on this function', run, backend='float-interp', budget=budget)
